@@ -28,6 +28,7 @@ THEOREMS = [
     "Qentem.Props.C13.lookup_last_stored",
     "Qentem.Props.C13.key_index_agree",
     "Qentem.Props.C13.sort_keeps_lookups",
+    "Qentem.Props.C13.sort_orders_keys_partial",
     # the lemmas the step theorem rests on (one per routine)
     "Qentem.HashTable.find_some",
     "Qentem.HashTable.find_none",
